@@ -167,10 +167,11 @@ def urllib_axioms():
     return ax
 
 
-@register
 class ScopeRoundTrip(SeqCheck):
     id = 'C16.scope_round_trip'
     prop = 'C16'
+    case = ()         # (present?, present?) for the first two elements: the 64 presence patterns are split over four
+                      # registered instances so that they are generated and discharged in parallel
     targets_list = (f'{LOC}:SdcLocation.scope_string', f'{LOC}:SdcLocation.from_scope_string')
     inline = (f'{LOC}:SdcLocation.root', f'{LOC}:SdcLocation.__init__')
     feasibility_ematch_only = True
@@ -190,6 +191,10 @@ class ScopeRoundTrip(SeqCheck):
         root = Val.s(self.mf['_root'].e)
         st.assume(_no('/', root))
         st.assume(z3.Length(root) > 0)       # an empty root yields a path "//...", which urlsplit reads as an authority
+        for e, present in zip(ELEMS, self.case):
+            v = self.mf[e].e
+            nonempty = z3.And(Val.is_str(v), z3.Length(Val.s(v)) > 0)
+            st.assume(nonempty if present else z3.Not(nonempty))
         for a in urllib_axioms():
             st.assume(a)
         st.ghost['c:q1'] = ()
@@ -331,3 +336,9 @@ class ScopeRoundTrip(SeqCheck):
                                                  SPLIT(fv.recv.e, z3.StringVal('/')) == parts))
                 return None
         return H
+
+
+for _a in (False, True):
+    for _b in (False, True):
+        register(type(f'ScopeRoundTrip_{int(_a)}{int(_b)}', (ScopeRoundTrip,),
+                      {'id': f'C16.scope_round_trip.fac_{"set" if _a else "unset"}.bldng_{"set" if _b else "unset"}', 'case': (_a, _b)}))
